@@ -53,7 +53,7 @@ Consume(rec) ==
   CASE rec.k = "reset" -> ResetAll
     [] rec.k \in {"fin", "abort"} -> UNCHANGED vars
     [] rec.k = "start" -> IF "ret" \in DOMAIN rec /\ AllIdle(rec) /\ rec.tailpos >= 0 THEN Canon(rec) ELSE Call(rec.t, rec)
-    [] rec.k = "step" -> (Atomic(rec.t) \/ UNCHANGED vars)
+    [] rec.k = "step" -> (Atomic(rec.t) \/ (rec.sites[rec.t] = Rec[l].sites[rec.t] /\ UNCHANGED vars))
     [] OTHER -> FALSE
 
 \* results are checked on the settled state of the line that carries them (registers keep the result until the next call)
